@@ -537,13 +537,21 @@ class Object(ObjectAliasMixin):
         See also: [`docstring`][griffe.Object.docstring],
         [`has_docstring`][griffe.Object.has_docstring].
         """
+        return self._has_docstrings(set())
+
+    def _has_docstrings(self, seen: set[int]) -> bool:
+        # Aliases can point back to an object that contains them (directly or not):
+        # remember the objects already visited to avoid infinite recursion.
         if self.has_docstring:
             return True
+        seen.add(id(self))
         for member in self.members.values():
             try:
-                if (not member.is_imported or member.is_public) and member.has_docstrings:
-                    return True
-            except AliasResolutionError:
+                if not member.is_imported or member.is_public:
+                    target = member.final_target if member.is_alias else member
+                    if id(target) not in seen and target._has_docstrings(seen):  # type: ignore[union-attr]
+                        return True
+            except (AliasResolutionError, CyclicAliasError):
                 continue
         return False
 
